@@ -84,7 +84,7 @@ def defines_of(header):
 def cval(v, ctype):
     """C++ literal for a CBMC trace value"""
     if isinstance(v, dict):
-        return '{' + ', '.join(cval(x, None) for x in v.values()) + '}'
+        return '{' + ', '.join(str(cval(x, None)) for k, x in v.items() if '$pad' not in k) + '}'
     if v is None:
         return '0'
     s = str(v)
